@@ -58,6 +58,11 @@ def run(run, ix, tier):
     pairs = check_pairing(run, ix)
     check_context_wiring(run, ix, pairs)
     check_e_terms(run, ix)
+    # K-R7: a constant handed to the interval context (or to another mp context) is evaluated there, with floor and
+    # ceiling for the two endpoints: rule X-R13 of the C38 module
+    from . import c38
+    run.rule('K-R7', floor=3, desc='constants of another context are evaluated at the receiving context (X-R13)')
+    c38.check_foreign_constants(run, ix, rule='K-R7')
     check_more_term_counts(run, ix)
     check_series_amplification(run, ix)
 
